@@ -306,6 +306,137 @@ fn run_case(run: &mut Run, asg: &[Assign], e: &E, stream: &str, mutant: u32) {
     run.case(lit, &format!("{} => {}", show(e), text), nontrivial, known);
 }
 
+// ---------------------------------------------------------------------------------------------
+// Literal-boundary stream.  For these magnitudes the decimal text is produced by the `lexical`
+// crate and is an oracle outside the Coq model, so each case is judged directly by the clause of
+// the property: the implementation's text must parse back (`Expression::from_str`) and the parsed
+// expression must evaluate to the same value (component-wise equal doubles for a bare literal,
+// relative tolerance 1e-9 inside a context).  A failure is a process-level failure (code 9).
+
+fn boundary_magnitudes(rng: &mut Rng, nrandom: usize) -> Vec<f64> {
+    let mut v: Vec<f64> = vec![
+        1e-7, 1e-6, 1e-5, 9.999e-6, 1.0001e-5, 1e-4, 1e-3, 0.1, 0.30000000000000004, 1.0, 123456.789,
+        1e14, 999999999999999.0, 999999999999999.9, 1e15, 1.5e15, 1e16, 9007199254740992.0, 9007199254740994.0,
+        9223372036854775808.0, 18446744073709549568.0, 18446744073709551616.0, 1.8446744073709556e19,
+        2e19, 5e19, 9.9e19, 99999999999999983616.0, 1e20, 1.5e20, 1e21, 1e22, 1e23, 1e100, 1e300,
+        f64::MAX, f64::MIN_POSITIVE, 5e-324, 2.5e-320, 1e-300, 4.9406564584124654e-324,
+    ];
+    for _ in 0..nrandom {
+        // seeded random 17-digit mantissa x 10^k, k in -320..=308
+        let mut m = String::new();
+        m.push(char::from(b'1' + rng.below(9) as u8));
+        m.push('.');
+        let nd = rng.range(0, 16);
+        for _ in 0..nd {
+            m.push(char::from(b'0' + rng.below(10) as u8));
+        }
+        let k = rng.range(0, 628) as i64 - 320;
+        if let Ok(x) = format!("{m}e{k}").parse::<f64>() {
+            if x.is_finite() && x > 0.0 {
+                v.push(x);
+            }
+        }
+        // and integral values around the integer-token range
+        if rng.chance(1, 4) {
+            let e = rng.range(50, 70) as i32;
+            let x = (2f64).powi(e) * (1.0 + rng.below(1 << 20) as f64 / (1u64 << 20) as f64);
+            v.push(x.trunc());
+        }
+    }
+    v
+}
+
+fn boundary_contexts(m: f64, m2: f64) -> Vec<(E, bool)> {
+    let x = || E::Var(0);
+    // (expression, is a bare literal)
+    let lits = vec![E::Num(m, 0.0), E::Num(-m, 0.0), E::Num(0.0, m), E::Num(0.0, -m), E::Num(m, m2), E::Num(-m2, -m)];
+    let mut out: Vec<(E, bool)> = Vec::new();
+    for l in &lits {
+        out.push((l.clone(), true));
+    }
+    for l in &lits[..4] {
+        out.push((E::infix(x(), Op::Star, l.clone()), false));
+        out.push((E::infix(l.clone(), Op::Plus, x()), false));
+        out.push((E::infix(x(), Op::Minus, l.clone()), false));
+        out.push((E::infix(E::Addr(0, 1), Op::Slash, l.clone()), false));
+        out.push((E::infix(l.clone(), Op::Caret, E::Num(2.0, 0.0)), false));
+        out.push((E::neg(l.clone()), false));
+        out.push((E::pos(l.clone()), false));
+        out.push((E::fnc(F::Cos, l.clone()), false));
+        out.push((E::fnc(F::Sqrt, E::infix(l.clone(), Op::Star, l.clone())), false));
+    }
+    out
+}
+
+fn same_double(a: f64, b: f64) -> bool {
+    a == b || (a.is_nan() && b.is_nan())
+}
+
+fn run_boundary(run: &mut Run, asg: &[Assign], e: &E, bare: bool) {
+    let ex = to_impl(e);
+    run.count("boundary=cases");
+    let text = match ex.to_quil() {
+        Ok(t) => t,
+        Err(err) => {
+            run.process_failure(&format!("to_quil failed: {err}"), &show(e), None);
+            return;
+        }
+    };
+    let parsed = match qv::catch(|| Expression::from_str(&text)) {
+        Ok(Ok(p)) => p,
+        Ok(Err(err)) => {
+            run.process_failure(
+                &format!(
+                    "the text {text:?} of {} does not parse back: {}",
+                    show(e),
+                    err.to_string().replace('\n', " ")
+                ),
+                &show(e),
+                None,
+            );
+            run.count("boundary=parse-error");
+            return;
+        }
+        Err(msg) => {
+            run.process_failure(&format!("parsing {text:?} panicked: {msg}"), &show(e), None);
+            return;
+        }
+    };
+    for (k, a) in asg.iter().enumerate() {
+        let v0 = match ex.evaluate(&a.vars, &a.mem) {
+            Ok(v) => v,
+            Err(_) => continue,
+        };
+        let v1 = parsed.evaluate(&a.vars, &a.mem);
+        let ok = match &v1 {
+            Ok(v1) => {
+                if bare {
+                    same_double(v1.re, v0.re) && same_double(v1.im, v0.im)
+                } else if finite(v0) {
+                    finite(*v1) && (*v1 - v0).norm() <= 1e-9 * v0.norm().max(f64::MIN_POSITIVE)
+                } else {
+                    true
+                }
+            }
+            Err(_) => false,
+        };
+        if !ok {
+            let cut = !bare && (on_branch_cut(&ex, a) || on_branch_cut(&parsed, a));
+            run.process_failure(
+                &format!(
+                    "the text {text:?} of {} parses back to a different value: at assignment #{k} {v0} vs {v1:?}",
+                    show(e)
+                ),
+                &show(e),
+                if cut { Some("signed-zero-literal") } else { None },
+            );
+            run.count("boundary=value-mismatch");
+            return;
+        }
+    }
+    run.count("boundary=ok");
+}
+
 fn main() {
     let args = Args::parse();
     let mutant = exprgen::mutant();
@@ -384,14 +515,28 @@ fn main() {
         let e = random(&big, &mut rng, d);
         run_case(&mut run, &asg, &e, "random", mutant);
     }
+    // (3) literal-boundary stream (judged in the harness: text must parse back to the same value)
+    let nbr = if args.thorough() { 4000 } else { 400 };
+    let mags = boundary_magnitudes(&mut rng, nbr);
+    let mut nboundary = 0u64;
+    for (i, m) in mags.iter().enumerate() {
+        let m2 = mags[(i * 7 + 3) % mags.len()];
+        for (e, bare) in boundary_contexts(*m, m2) {
+            run_boundary(&mut run, &asg, &e, bare);
+            nboundary += 1;
+        }
+    }
     run.finish(
         "exhaustive: every expression tree of depth <= 3 with at most N nodes (N = extra.full_nodes) over \
          {2, -1.25, 0.5-1.5i, pi, %x, a[1]; cis cos exp sin sqrt, prefix -, prefix +; ^ + - / *}; a seeded sample of \
          depth-3 trees over the same alphabet; seeded random trees of depth <= 6 over a larger alphabet (more \
-         literals incl. pure imaginary and negative-real-part complex ones, more names); the regression corpus. \
+         literals incl. pure imaginary and negative-real-part complex ones, more names); the regression corpus; plus (not counted in evaluations, judged in the harness) a literal-boundary \
+         stream: real / imaginary / two-part literals, positive and negative, alone and inside infix, prefix and function \
+         contexts, over magnitudes crossing every formatting boundary (1e-7..0.1, 1e14..1e16, 2^53, 2^63, 2^64, 2e19, 1e20..1e23, \
+         1e100, 1e300, MAX, MIN_POSITIVE, subnormals) and seeded random mantissa x 10^k, k in -320..308. \
          Distinct by the tree; non-trivial = more than one node.",
         true,
         serde_json::json!({"full_nodes": full_nodes, "exhaustive_cases": ntrees, "depth3_sample": nd3,
-                           "random_cases": nrand, "corpus": corpus.len(), "mutant": mutant}),
+                           "random_cases": nrand, "boundary_magnitudes": mags.len(), "boundary_cases": nboundary, "corpus": corpus.len(), "mutant": mutant}),
     );
 }
